@@ -198,3 +198,69 @@ def check_shift_ge(rng, nmodels, nested, tag):
                 out.append(dict(what='the Jacobian of a model whose solved block sits downstream of a lead/lag chain differs from the flat general-equilibrium Jacobian (dense reference)',
                                 input=dict(inp, form='nested', entries=bad[:4]), signature=dict(op='shift-ge', form='nested')))
     return out, n
+
+
+# ---- the shipped example models (sequence_jacobian.examples): rbc, krusell_smith, hank, two_asset ------------------------------
+def example_models(names):
+    import importlib
+    out = []
+    for nm in names:
+        mod = importlib.import_module(f'sequence_jacobian.examples.{nm}')
+        r = mod.dag()
+        if len(r) == 5:
+            model, ss, U, Tg, Z = r
+            model_ss = model
+        else:
+            model_ss, ss, model, U, Tg, Z = r[:6]
+        out.append((nm, model_ss, model, ss, list(U), list(Tg), list(Z)))
+    return out
+
+
+def check_examples(names, what, T=30):
+    """what: 'ss' (steady state is a fixed point of the transition model, targets are zero), 'ge' (H_U G_U + H_Z = 0, chain-rule totals, impulse = G @ shock),
+    'nl' (nonlinear: zero shock, consistency by re-evaluation, small shocks approach the linear impulse)"""
+    viol, n = [], 0
+    for nm, model_ss, model, ss, U, Tg, Z in example_models(names):
+        inp = dict(kind='example', model=nm)
+        if what == 'ss':
+            n += 1
+            re = model.steady_state({k: ss[k] for k in model.inputs})
+            bad = [k for k in re.toplevel if k in ss.toplevel and np.isscalar(re[k]) and abs(re[k] - ss[k]) > 1e-7 * max(1, abs(ss[k]))]
+            offt = [t for t in Tg if abs(re[t]) > 1e-6]
+            if bad or offt:
+                viol.append(dict(what='the shipped example model re-evaluated at its steady state does not reproduce it / its transition targets are not zero there', input=dict(inp, differing=bad[:5], targets_off=offt),
+                                 signature=dict(op='example-ss', model=nm)))
+        elif what == 'ge':
+            n += 1
+            G = model.solve_jacobian(ss, U, Tg, Z, T=T)
+            H = model.jacobian(ss, U + Z, Tg, T=T)
+            d = lambda J, o, i: dense(J.nesteddict.get(o, {}).get(i), T) if J.nesteddict.get(o, {}).get(i) is not None else np.zeros((T, T))
+            for z in Z:
+                for t in Tg:
+                    resid = sum(d(H, t, u) @ d(G, u, z) for u in U) + d(H, t, z)
+                    if np.abs(resid).max() > 1e-7:
+                        viol.append(dict(what='general-equilibrium Jacobian of a shipped example model leaves a target response', input=dict(inp, target=t, shock=z), observed=float(np.abs(resid).max()), signature=dict(op='example-ge', model=nm)))
+            sh = {Z[0]: 0.01 * 0.8 ** np.arange(T)}
+            imp = model.solve_impulse_linear(ss, U, Tg, sh)
+            app = G @ sh
+            W = T - 6
+            bad = [k for k in U if np.abs(imp[k][:W] - app[k][:W]).max() > 1e-8]
+            if bad:
+                viol.append(dict(what='linear impulse of a shipped example model differs from G applied to the shock', input=dict(inp, outputs=bad), signature=dict(op='example-impulse', model=nm)))
+        elif what == 'nl':
+            n += 1
+            T = 120          # short horizons truncate the linear operator algebra and the nonlinear path evaluation differently
+            opts = {model.name: dict(verbose=False, tol=1e-7, maxit=40)}
+            z0 = model.solve_impulse_nonlinear(ss, U, Tg, {Z[0]: np.zeros(T)}, options=opts)
+            if max(np.abs(z0[u]).max() for u in U) > 1e-6:
+                viol.append(dict(what='a zero shock moves a shipped example model', input=inp, signature=dict(op='example-zero', model=nm)))
+            sh = {Z[0]: 1e-4 * 0.8 ** np.arange(T)}
+            r = model.solve_impulse_nonlinear(ss, U, Tg, sh, options=opts)
+            if any(np.abs(r[t]).max() > 1e-6 for t in Tg):
+                viol.append(dict(what='nonlinear solution of a shipped example model misses its targets', input=inp, signature=dict(op='example-targets', model=nm)))
+            lin = model.solve_impulse_linear(ss, U, Tg, sh)
+            W = T - 6
+            dev = max(np.abs(r[u][:W] - lin[u][:W]).max() / max(np.abs(lin[u]).max(), 1e-12) for u in U)
+            if dev > 1e-2:       # the gap is second order in the shock size (measured: 4e-3 for the HANK example at this size)
+                viol.append(dict(what='for a small shock the nonlinear path of a shipped example model is far from the linear impulse', input=inp, observed=float(dev), signature=dict(op='example-nl-vs-lin', model=nm)))
+    return viol, n
